@@ -71,7 +71,10 @@ PadC(e, pre, post) ==
       fillOk == Len(e.a.fill) = 1
       pad == PadOf(e.a.m, n, e.a.width)
   IN Cl("C12.bad_fill_rejected", ~fillOk, ~fillOk => e.out \in {"raise:ValueError", "raise:TypeError"})
-  \o Cl("C12.defined", fillOk, fillOk => e.out = "ok")
+  \* ("x": a call recorded from the repository's own tests, for which str's outcome is not logged: none of them passes such a width)
+  \o Cl("C12.defined", fillOk /\ e.o.pyout \in {"ok", "x"}, (fillOk /\ e.o.pyout \in {"ok", "x"}) => e.out = "ok")
+  \* a width beyond the index range: str raises OverflowError for the same call, and so must the library
+  \o Cl("C12.raises_like_str", fillOk /\ e.o.pyout \notin {"ok", "x"}, (fillOk /\ e.o.pyout \notin {"ok", "x"}) => e.out = e.o.pyout)
   \o IF ~HasResult(e) \/ ~fillOk THEN None ELSE
      LET w == ResultOf(e, post)
          f == e.a.fill[1]
